@@ -29,6 +29,25 @@
 //!    "locks of completed transactions are released" is also decided after every
 //!    restart through what recovery reports as orphaned locks.
 //!
+//! Strengthened (round 3) by the log configuration as part of the case, again without a
+//! new oracle clause:
+//!  * `log_limit`: the log is opened with `WalConfig { max_size_bytes, auto_rotate: false }`
+//!    (in the first `lives` incarnations), so that appends are refused at varying points of
+//!    begin / record_vote / commit / abort / the abort broadcast. `Mode::Limits` enumerates
+//!    the limit from a reference execution: every record of program and epilogue in turn is
+//!    the first one refused (no room left; one byte short, so that shorter records still
+//!    fit), kept for ever or lifted at one of the next two restarts, followed by the epilogue
+//!    at once or by timeouts / aborts on the live coordinator first. Every fourth of these
+//!    cases instead has a drawn limit together with 1-3 crashes;
+//!  * coordinator calls may return `Err`: un-acknowledged, nothing is assumed about what they
+//!    did. What they logged is read back from the log at once (a completion counts as logged
+//!    when its TxComplete record is in the log); a vote that `record_vote` answered with
+//!    Ok(None) without taking it (its append was refused) does not enter the ledger;
+//!  * a reversal (abort / timeout after a logged commit, commit after a logged abort) by the
+//!    very incarnation that logged the completion is judged at the next restart: the text
+//!    speaks of a restarted coordinator; from that restart on the completion "was logged
+//!    before the crash" and the reversal lies "afterwards" in the transaction's history.
+//!
 //! Oracle = ledger of completions that were logged before a restart
 //! (`commit`/`abort` returned `Ok` while the node was alive, or — for the call
 //! cut by the crash — the `TxComplete` record lies wholly in the surviving
@@ -44,6 +63,7 @@ use std::collections::{BTreeMap, BTreeSet};
 use std::sync::atomic::{AtomicU64, Ordering};
 use std::sync::{Arc, Mutex, Once, RwLock};
 use tensor_chain::network::Message;
+use tensor_chain::raft_wal::WalConfig;
 use tensor_chain::{
     lock_handle_current, ConsensusConfig, ConsensusManager, DeltaVector, DistributedTxConfig, DistributedTxCoordinator,
     LockManager, PrepareRequest, PrepareVote, Transaction, TxOutcome, TxPhase, TxRecoveryState, TxWal, TxWalEntry, VoteRecordError,
@@ -123,10 +143,30 @@ pub struct CrashSpec {
     pub cut: u64,
 }
 
+/// Configuration of the transaction log: a hard size limit without rotation
+/// (`WalConfig { max_size_bytes, auto_rotate: false, .. }`). An append that would
+/// take the log past the limit is refused; the coordinator call that needed it may
+/// return `Err` (un-acknowledged) or go on without the record.
+#[derive(Serialize, Deserialize, Clone, Debug, PartialEq)]
+pub struct LogLimit {
+    pub max_bytes: u64,
+    /// the first `lives` incarnations open the log with the limit, later ones with the
+    /// default configuration (the operator lifted it); 255 = every incarnation
+    pub lives: u8,
+}
+
 #[derive(Serialize, Deserialize, Clone, Debug, PartialEq)]
 pub enum Mode {
     Enumerate,
     Chain(Vec<CrashSpec>),
+    /// the size limit of the log is enumerated: a reference execution without limit gives
+    /// the log size before and after every record; every record of program and epilogue
+    /// in turn is the first one the limit refuses (with no room left, and with one byte
+    /// less than the record needs, so that shorter records still fit), the limit is kept
+    /// for ever or lifted at one of the next restarts, and the program is followed by the
+    /// epilogue at once (restart first) or by timeouts / aborts on the live coordinator
+    /// and then the epilogue. `points` > 0: a seeded subset of that many executions.
+    Limits { seed: u64, points: u32 },
     /// like Enumerate, but only `points` of the crash points, drawn with `seed`
     /// (programs with very long records or thread blocks, where one execution is dear)
     Sample { seed: u64, points: u32 },
@@ -144,6 +184,9 @@ pub struct Case {
     /// (a new process), so that handle values repeat across transactions
     #[serde(default)]
     pub handle_numbering: u8,
+    /// size limit of the transaction log (None: default configuration, 1 GiB with rotation)
+    #[serde(default)]
+    pub log_limit: Option<LogLimit>,
 }
 
 pub struct C13;
@@ -212,6 +255,9 @@ struct TxRec {
     prepared_logged: bool,
     /// (committed?, incarnation in which the TxComplete record was logged)
     outcome: Option<(bool, usize)>,
+    /// the completion is known from the log only: the call that logged it returned `Err`
+    /// (un-acknowledged: no statement about what else it did, e.g. releasing locks)
+    err_logged: bool,
     /// completed or swept in memory without a log record (complete_commit,
     /// complete_abort, cleanup_timeouts): coming back after a restart and not
     /// coming back are both accepted from then on
@@ -299,6 +345,13 @@ struct Trial<'a> {
     par_override: Option<(usize, Vec<u8>)>,
     /// (step index, threads, scheduler steps) of every `Par` step executed
     par_steps: Vec<(usize, usize, usize)>,
+    /// size limit of the log in this execution (the case's, or the enumerated one)
+    limit: Option<LogLimit>,
+    /// steps run between the program and the epilogue (enumerated live tails)
+    extra: Vec<Step>,
+    /// reversals, by the incarnation that logged it, of a completion (class, detail):
+    /// judged when the coordinator has been restarted from the log that holds the completion
+    deferred: Vec<(&'static str, String)>,
 }
 
 /// What a thread of a `Par` step knows about a transaction (taken when the step starts).
@@ -320,6 +373,11 @@ struct ParResult {
     vote_res: Option<std::result::Result<Option<TxPhase>, VoteRecordError>>,
     ok: bool,
     alive: bool,
+    /// `record_vote` answered Ok(None) but did not take the vote (append refused by the size limit)
+    dropped: bool,
+    /// error text of a failed commit / abort of a transaction the coordinator knew, and
+    /// what the log said about the transaction when the call returned
+    err: Option<(String, (bool, bool, bool, Option<bool>, bool))>,
 }
 
 impl<'a> Trial<'a> {
@@ -348,6 +406,118 @@ impl<'a> Trial<'a> {
             harness_error: None,
             par_override: None,
             par_steps: Vec::new(),
+            limit: case.log_limit.clone(),
+            extra: Vec::new(),
+            deferred: Vec::new(),
+        }
+    }
+
+    /// the size limit the running incarnation's log was opened with
+    fn limit_in_force(&self) -> Option<u64> {
+        self.limit.as_ref().filter(|l| l.lives == 255 || self.inc < l.lives as usize).map(|l| l.max_bytes)
+    }
+
+    fn open_wal(&self) -> std::io::Result<TxWal> {
+        match self.limit_in_force() {
+            Some(max) => {
+                self.ctx.probe("log_opened_with_size_limit");
+                TxWal::open_with_config(&self.wal, WalConfig { max_size_bytes: max, auto_rotate: false, ..WalConfig::default() })
+            },
+            None => TxWal::open(&self.wal),
+        }
+    }
+
+    /// The records of the log of the live coordinator (every append is flushed before
+    /// the call returns), decoded independently of `TxWal::replay`.
+    fn read_log(path: &str) -> Vec<TxWalEntry> {
+        let raw = std::fs::read(path).unwrap_or_default();
+        let mut pos = 0usize;
+        let mut out = Vec::new();
+        while pos + 8 <= raw.len() {
+            let l = u32::from_le_bytes([raw[pos], raw[pos + 1], raw[pos + 2], raw[pos + 3]]) as usize;
+            if l > (1 << 24) || pos + 8 + l > raw.len() {
+                break;
+            }
+            match bitcode::deserialize::<TxWalEntry>(&raw[pos + 8..pos + 8 + l]) {
+                Ok(e) => out.push(e),
+                Err(_) => break,
+            }
+            pos += 8 + l;
+        }
+        out
+    }
+
+    /// What the log says about transaction `t`: (Prepared logged, Aborting logged,
+    /// Committing logged, first TxComplete, AllLocksReleased logged).
+    fn logged_about(entries: &[TxWalEntry], id: u64) -> (bool, bool, bool, Option<bool>, bool) {
+        let (mut prepared, mut aborting, mut committing, mut complete, mut released) = (false, false, false, None, false);
+        for e in entries {
+            match e {
+                TxWalEntry::PhaseChange { tx_id, to, .. } if *tx_id == id => match to {
+                    TxPhase::Prepared => prepared = true,
+                    TxPhase::Aborting => aborting = true,
+                    TxPhase::Committing => committing = true,
+                    _ => {},
+                },
+                TxWalEntry::TxComplete { tx_id, outcome } if *tx_id == id => {
+                    // the first completion is the completion; a later one would be a reversal
+                    if complete.is_none() {
+                        complete = Some(matches!(outcome, TxOutcome::Committed));
+                    }
+                },
+                TxWalEntry::AllLocksReleased { tx_id } if *tx_id == id => released = true,
+                _ => {},
+            }
+        }
+        (prepared, aborting, committing, complete, released)
+    }
+
+    /// `commit` / `abort` returned `Err` on the live coordinator for a transaction it knew:
+    /// the call is un-acknowledged, nothing is assumed about what it did; what it logged is
+    /// read back ("an outcome whose completion was logged": a completion counts as logged
+    /// when its TxComplete record is in the log).
+    fn on_failed_decision(&mut self, t: u8, how: &str, err: &str) {
+        let Some(id) = self.recs.get(&t).map(|r| r.id) else { return };
+        let logged = Self::logged_about(&Self::read_log(&self.wal), id);
+        self.on_failed_decision_with(t, how, err, logged);
+    }
+
+    /// `logged` = what the log said about the transaction when the call returned
+    fn on_failed_decision_with(&mut self, t: u8, how: &str, err: &str, logged: (bool, bool, bool, Option<bool>, bool)) {
+        let refused = err.contains("WAL write failed");
+        if refused {
+            self.ctx.probe("decision_call_failed_on_refused_append");
+        }
+        let Some(rec) = self.recs.get(&t) else { return };
+        if rec.outcome.is_some() {
+            return;
+        }
+        let (prepared, aborting, committing, complete, _released) = logged;
+        let inc = self.inc;
+        let rec = self.recs.get_mut(&t).unwrap();
+        if prepared {
+            rec.prepared_logged = true;
+        }
+        if let Some(cm) = complete {
+            rec.outcome = Some((cm, inc));
+            rec.err_logged = true;
+            self.ctx.probe("completion_logged_by_call_that_returned_err");
+            self.ctx.event(&format!("  {how} t{t} returned Err, its TxComplete({}) record is in the log", if cm { "Committed" } else { "Aborted" }));
+        } else if committing {
+            if refused {
+                self.ctx.probe("commit_failed_between_committing_and_txcomplete");
+            }
+        } else if aborting {
+            if refused {
+                self.ctx.probe("abort_failed_between_aborting_and_txcomplete");
+            }
+            if !rec.prepared_logged {
+                // as for an abort cut by a crash after its PhaseChange -> Aborting record:
+                // "still collecting votes" no longer describes it, no completion was logged
+                rec.loose = true;
+            }
+        } else if refused {
+            self.ctx.probe("decision_refused_before_any_record");
         }
     }
 
@@ -437,16 +607,25 @@ impl<'a> Trial<'a> {
             // "a transaction completed as committed is never afterwards aborted ..., and
             //  one completed as aborted is never committed" — for completions logged
             //  before the (latest) restart
-            if inc0 < inc && was_committed != committed {
+            if was_committed != committed {
                 let class = if was_committed { "committed-then-aborted" } else { "aborted-then-committed" };
-                return Err(viol(
-                    class,
-                    format!(
-                        "t{t}: completion as {} was logged in incarnation {inc0}; in incarnation {inc} {how} returned Ok and completed it as {}",
-                        if was_committed { "committed" } else { "aborted" },
-                        if committed { "committed" } else { "aborted" }
-                    ),
-                ));
+                let detail = format!(
+                    "t{t}: completion as {} was logged in incarnation {inc0}; in incarnation {inc} {how} returned Ok and completed it as {}",
+                    if was_committed { "committed" } else { "aborted" },
+                    if committed { "committed" } else { "aborted" }
+                );
+                if inc0 < inc {
+                    return Err(viol(class, detail));
+                }
+                // reversed by the incarnation that logged the completion: the text speaks of a
+                // restarted coordinator, so this is judged at the next restart from this log
+                // (from then on the completion "was logged before the crash", and the reversal
+                // lies "afterwards" in the history of the transaction)
+                self.ctx.probe("logged_completion_reversed_before_restart");
+                self.deferred.push((class, detail));
+            }
+            if rec.outcome.map(|o| o.0) == Some(committed) {
+                rec.err_logged = false;
             }
         } else if logged {
             rec.outcome = Some((committed, inc));
@@ -455,10 +634,22 @@ impl<'a> Trial<'a> {
             rec.volatile = true;
         }
         let abort_sent = rec.abort_sent;
+        let reversed = rec.outcome.map(|o| o.0 != committed).unwrap_or(false);
+        if reversed {
+            // the locks are judged against the logged completion after the restart
+            return Ok(());
+        }
         if committed && abort_sent {
             self.observe("observation(unlogged timeout/no-vote abort, outside C13's clauses): an abort broadcast was sent for a transaction that was later completed as committed");
         }
         self.ctx.probe(if committed { "tx_completed_committed" } else { "tx_completed_aborted" });
+        if how == "commit" && self.limit_in_force().is_some() {
+            let (_, _, _, complete, released) = Self::logged_about(&Self::read_log(&self.wal), self.recs[&t].id);
+            if complete == Some(true) && !released {
+                // the window in which the bookkeeping records behind the decision are refused
+                self.ctx.probe("commit_ok_with_lock_release_records_refused");
+            }
+        }
         self.check_no_locks(c, t, "completed-tx-holds-lock", &format!("after {how}"))
     }
 
@@ -492,6 +683,7 @@ impl<'a> Trial<'a> {
                         last_vote: BTreeMap::new(),
                         prepared_logged: false,
                         outcome: None,
+                        err_logged: false,
                         volatile: false,
                         loose: false,
                         forgotten: false,
@@ -550,7 +742,11 @@ impl<'a> Trial<'a> {
                                 //  with a completed or forgotten transaction
                                 if let Some(ot) = me.slot_of(*conflicting_tx) {
                                     let o = &me.recs[&ot];
-                                    if o.outcome.is_some() || o.forgotten {
+                                    // (a completion logged by a call that returned Err in this very
+                                    //  incarnation is un-acknowledged: nothing is said about its locks
+                                    //  before the restart)
+                                    let unacked = o.err_logged && o.outcome.map(|x| x.1) == Some(me.inc);
+                                    if (o.outcome.is_some() && !unacked) || o.forgotten {
                                         return Err(viol(
                                             "lock-left-behind",
                                             format!(
@@ -586,7 +782,14 @@ impl<'a> Trial<'a> {
                 let r = c.record_vote(rec.id, shard, vote.clone());
                 let alive = self.alive();
                 self.touched.push(*t);
+                // under a size limit `record_vote` answers Ok(None) as well when the append of the
+                // vote was refused and the vote dropped: un-acknowledged, the ledger does not count it
+                let dropped = alive
+                    && matches!(r, Ok(None))
+                    && self.limit_in_force().is_some()
+                    && !c.get(rec.id).map(|x| x.votes.contains_key(&shard)).unwrap_or(false);
                 let res = match &r {
+                    Ok(None) if dropped => "dropped (append refused)".to_string(),
                     Ok(None) => "accepted".to_string(),
                     Ok(Some(p)) => format!("accepted->{}", phase_name(*p)),
                     Err(VoteRecordError::TxNotFound(_)) => "notfound".to_string(),
@@ -595,6 +798,13 @@ impl<'a> Trial<'a> {
                 };
                 ctx.event(&format!("s{i} vote t{t} p{pnum} {v:?} yes={is_yes} -> {res}{}", if alive { "" } else { " (node dead)" }));
                 match r {
+                    Ok(_) if dropped => {
+                        ctx.probe("vote_dropped_on_refused_append");
+                        // the scripted participant gives up the lock of a vote that was not taken
+                        if let Some(h) = real_lock {
+                            c.lock_manager().release_by_handle(h);
+                        }
+                    },
                     Ok(p) => {
                         let rec = self.recs.get_mut(t).unwrap();
                         rec.votes.entry(shard).or_insert((is_yes, handle));
@@ -622,12 +832,15 @@ impl<'a> Trial<'a> {
             },
             Step::Commit { t } => {
                 let Some(id) = self.recs.get(t).map(|r| r.id) else { return Ok(()) };
+                let known = c.get(id).is_some();
                 let r = c.commit(id);
                 let alive = self.alive();
                 self.touched.push(*t);
                 ctx.event(&format!("s{i} commit t{t} -> {}{}", if r.is_ok() { "ok" } else { "err" }, if alive { "" } else { " (node dead)" }));
                 if r.is_ok() && alive {
                     self.on_completed(c, *t, true, true, "commit")?;
+                } else if let (Err(e), true, true) = (&r, alive, known) {
+                    self.on_failed_decision(*t, "commit", &e.to_string());
                 }
             },
             Step::Abort { t } => {
@@ -643,6 +856,8 @@ impl<'a> Trial<'a> {
                         self.observe("observation(decision logged, completion not logged: outside C13's clauses): abort() succeeded on a recovered transaction in phase Committing and logged it as aborted");
                     }
                     self.on_completed(c, *t, false, true, "abort")?;
+                } else if let (Err(e), true, true) = (&r, alive, before.is_some()) {
+                    self.on_failed_decision(*t, "abort", &e.to_string());
                 }
             },
             Step::Advance { ms } => {
@@ -724,7 +939,13 @@ impl<'a> Trial<'a> {
                 .collect(),
         );
         // transactions that were completed or forgotten before the step started
-        let done_before: BTreeSet<u8> = self.recs.iter().filter(|(_, r)| r.outcome.is_some() || r.forgotten).map(|(t, _)| *t).collect();
+        let inc_now = self.inc;
+        let done_before: BTreeSet<u8> = self
+            .recs
+            .iter()
+            .filter(|(_, r)| (r.outcome.is_some() && !(r.err_logged && r.outcome.map(|x| x.1) == Some(inc_now))) || r.forgotten)
+            .map(|(t, _)| *t)
+            .collect();
         let results: Arc<Mutex<Vec<ParResult>>> = Arc::new(Mutex::new(Vec::new()));
         let numbering = self.case.handle_numbering;
         // (slot, participant number) -> (vote, handle of the real lock) prepared ahead of the threads
@@ -770,6 +991,8 @@ impl<'a> Trial<'a> {
                 let counter = self.next_handle.clone();
                 let ctx = ctx.clone();
                 let prepared = prepared.clone();
+                let limited = self.limit_in_force().is_some();
+                let wal_path = self.wal.clone();
                 Box::new(move || {
                     let mut sent: BTreeSet<(u8, usize)> = BTreeSet::new();
                     for op in &prog {
@@ -777,7 +1000,7 @@ impl<'a> Trial<'a> {
                             POp::Vote { t, .. } | POp::Commit { t } | POp::Abort { t } => *t,
                         };
                         let Some(tx) = snapshot.get(&slot) else { continue };
-                        let mut res = ParResult { thread: k, op: op.clone(), vote: None, vote_res: None, ok: false, alive: true };
+                        let mut res = ParResult { thread: k, op: op.clone(), vote: None, vote_res: None, ok: false, alive: true, dropped: false, err: None };
                         match op {
                             POp::Vote { s, yes, .. } => {
                                 let pnum = *s as usize % tx.parts.len();
@@ -802,7 +1025,11 @@ impl<'a> Trial<'a> {
                                 };
                                 let r = c.record_vote(tx.id, shard, vote.clone());
                                 res.alive = !ctx.is_dead(NODE);
-                                if r.is_err() {
+                                res.dropped = limited
+                                    && res.alive
+                                    && matches!(r, Ok(None))
+                                    && !c.get(tx.id).map(|x| x.votes.contains_key(&shard)).unwrap_or(false);
+                                if r.is_err() || res.dropped {
                                     // the scripted participant gives up the lock of a vote the coordinator refused
                                     if let Some(h) = real_lock {
                                         c.lock_manager().release_by_handle(h);
@@ -813,12 +1040,18 @@ impl<'a> Trial<'a> {
                                 res.vote_res = Some(r);
                             },
                             POp::Commit { .. } => {
-                                res.ok = c.commit(tx.id).is_ok();
+                                let known = c.get(tx.id).is_some();
+                                let r = c.commit(tx.id);
+                                res.ok = r.is_ok();
                                 res.alive = !ctx.is_dead(NODE);
+                                res.err = r.err().filter(|_| known && res.alive).map(|e| (e.to_string(), Self::logged_about(&Self::read_log(&wal_path), tx.id)));
                             },
                             POp::Abort { .. } => {
-                                res.ok = c.abort(tx.id, "scripted abort").is_ok();
+                                let known = c.get(tx.id).is_some();
+                                let r = c.abort(tx.id, "scripted abort");
+                                res.ok = r.is_ok();
                                 res.alive = !ctx.is_dead(NODE);
+                                res.err = r.err().filter(|_| known && res.alive).map(|e| (e.to_string(), Self::logged_about(&Self::read_log(&wal_path), tx.id)));
                             },
                         }
                         results.lock().unwrap().push(res);
@@ -859,6 +1092,7 @@ impl<'a> Trial<'a> {
                     self.touched.push(*t);
                     let vr = r.vote_res.unwrap();
                     let txt = match &vr {
+                        Ok(None) if r.dropped => "dropped (append refused)".to_string(),
                         Ok(None) => "accepted".to_string(),
                         Ok(Some(p)) => format!("accepted->{}", phase_name(*p)),
                         Err(VoteRecordError::TxNotFound(_)) => "notfound".to_string(),
@@ -885,6 +1119,7 @@ impl<'a> Trial<'a> {
                         }
                     }
                     match vr {
+                        Ok(_) if r.dropped => ctx.probe("vote_dropped_on_refused_append"),
                         Ok(p) => {
                             let rec = self.recs.get_mut(t).unwrap();
                             rec.votes.entry(shard).or_insert((is_yes, handle));
@@ -913,6 +1148,8 @@ impl<'a> Trial<'a> {
                     if r.ok && r.alive {
                         ctx.probe("par_completion");
                         self.on_completed(c, *t, committed, true, how)?;
+                    } else if let (Some((e, logged)), true) = (&r.err, r.alive) {
+                        self.on_failed_decision_with(*t, how, e, *logged);
                     }
                 },
             }
@@ -955,6 +1192,17 @@ impl<'a> Trial<'a> {
                 self.on_completed(c, t, committed, logged, how)
             },
             Err(e) => {
+                let msg = e.to_string();
+                if logged {
+                    self.on_failed_decision(t, how, &msg);
+                }
+                // relaxation: under a size limit the log may refuse the records of the decision;
+                // the call is un-acknowledged and the transaction stays pending ("can be driven to
+                // completion" does not promise a completion the log has no room for)
+                if self.limit_in_force().is_some() && msg.contains("WAL write failed") {
+                    self.ctx.probe("drive_failed_on_refused_append");
+                    return Ok(());
+                }
                 // "Transactions that had collected all votes but no outcome come back with
                 //  those votes and can be driven to completion"
                 if prepared_logged && self.recs[&t].outcome.is_none() {
@@ -980,12 +1228,14 @@ impl<'a> Trial<'a> {
             let rec = self.recs.get_mut(&t).unwrap();
             // "a transaction completed as committed is never afterwards aborted or timed out"
             if let Some((true, inc0)) = rec.outcome {
+                let detail = format!("{what}: t{t} was completed as committed (logged in incarnation {inc0}); cleanup_timeouts in incarnation {inc} lists it as timed out");
                 if inc0 < inc {
-                    return Err(viol(
-                        "committed-then-timed-out",
-                        format!("{what}: t{t} was completed as committed (logged in incarnation {inc0}); cleanup_timeouts in incarnation {inc} lists it as timed out"),
-                    ));
+                    return Err(viol("committed-then-timed-out", detail));
                 }
+                // timed out by the incarnation that logged the completion: judged at the next
+                // restart from this log (see `on_completed`)
+                self.ctx.probe("logged_completion_reversed_before_restart");
+                self.deferred.push(("committed-then-timed-out", detail));
             }
             rec.volatile = true;
             self.ctx.probe("tx_timed_out");
@@ -1068,7 +1318,10 @@ impl<'a> Trial<'a> {
         if torn {
             ctx.probe("reopen_with_torn_tail");
         }
-        let wal = match TxWal::open(&self.wal) {
+        if self.limit.is_some() {
+            ctx.probe(if self.limit_in_force().is_some() { "restart_under_size_limit" } else { "size_limit_lifted_at_restart" });
+        }
+        let wal = match self.open_wal() {
             Ok(w) => w,
             // the (next) crash fired inside this very open: what the dead process sees does not count
             Err(_) if !self.alive() => return Ok(Arc::new(Self::placeholder())),
@@ -1149,6 +1402,14 @@ impl<'a> Trial<'a> {
                     rec.loose = true;
                 }
             }
+        }
+        // "a transaction completed as committed is never afterwards aborted or timed out, and
+        //  one completed as aborted is never committed": reversals by the incarnation that had
+        //  logged the completion itself. The coordinator has now been restarted from the log that
+        //  holds the completion, which makes it "an outcome whose completion was logged before
+        //  the crash"; the reversal lies afterwards in the transaction's history.
+        if let Some((class, detail)) = self.deferred.first() {
+            return Err(viol(class, format!("{detail}; {what}: the coordinator has now been restarted (restart #{}) from the log that holds that completion", self.inc)));
         }
         self.check_orphaned_locks(&entries, what)?;
         let mut pend: Vec<String> = Vec::new();
@@ -1369,7 +1630,7 @@ impl<'a> Trial<'a> {
     }
 
     fn start(&mut self) -> Result<Arc<DistributedTxCoordinator>, Violation> {
-        let wal = match TxWal::open(&self.wal) {
+        let wal = match self.open_wal() {
             Ok(w) => w,
             // the crash fired inside this very open: what the dead process sees does not count
             Err(_) if !self.alive() => return Ok(Arc::new(Self::placeholder())),
@@ -1389,7 +1650,7 @@ impl<'a> Trial<'a> {
     fn run(&mut self, crashes: &[CrashSpec], record: bool) -> (Result<(), Violation>, Vec<(usize, SysEvent)>) {
         let ctx = self.ctx;
         let mut syslog: Vec<(usize, SysEvent)> = Vec::new();
-        let steps = full_steps(self.case);
+        let steps = full_steps_with(self.case, &self.extra);
         let mut crash_iter = crashes.iter();
         let mut cur_crash = crash_iter.next();
         if let Some(c) = cur_crash {
@@ -1455,6 +1716,7 @@ fn mode_name(m: &Mode) -> &'static str {
         Mode::Enumerate => "enumerate",
         Mode::Chain(_) => "chain",
         Mode::Sample { .. } => "sample",
+        Mode::Limits { .. } => "limits",
     }
 }
 
@@ -1484,7 +1746,13 @@ fn step_kind(s: &Step) -> &'static str {
 /// and sweep; a new transaction on the keys of the first one, committed;
 /// restart.
 fn full_steps(case: &Case) -> Vec<Step> {
+    full_steps_with(case, &[])
+}
+
+/// `extra`: steps between the program and the epilogue (the live tails of `Mode::Limits`)
+fn full_steps_with(case: &Case, extra: &[Step]) -> Vec<Step> {
     let mut v = case.steps.clone();
+    v.extend_from_slice(extra);
     let (n, kb) = case
         .steps
         .iter()
@@ -1590,7 +1858,33 @@ fn gen_classic(rng: &mut Rng) -> Case {
         )
     };
     let handle_numbering = u8::from(rng.chance(1, 2));
-    Case { steps, recover_after_restart, mode, handle_numbering }
+    Case { steps, recover_after_restart, mode, handle_numbering, log_limit: None }
+}
+
+/// The log configuration as part of the case: a round-1 program whose log has a hard size
+/// limit without rotation. Mostly the limit is enumerated (`Mode::Limits`); every fourth case
+/// has a drawn limit near the size the program's records reach together with 1-3 crashes.
+fn gen_limited(rng: &mut Rng, with_crashes: bool) -> Case {
+    let mut case = gen_classic(rng);
+    if with_crashes {
+        // rough size of the records of the program (a record is 17-25 bytes)
+        let est: u64 = case
+            .steps
+            .iter()
+            .map(|s| match s {
+                Step::Begin { .. } => 24,
+                Step::Vote { .. } => 30,
+                Step::Commit { .. } => 90,
+                Step::Abort { .. } => 40,
+                _ => 0,
+            })
+            .sum();
+        case.mode = gen_chain(rng, case.steps.len());
+        case.log_limit = Some(LogLimit { max_bytes: rng.range(20, est.max(40) + 60), lives: *rng.pick(&[1u8, 1, 2, 255]) });
+    } else {
+        case.mode = Mode::Limits { seed: rng.next_u64(), points: 0 };
+    }
+    case
 }
 
 fn gen_chain(rng: &mut Rng, nsteps: usize) -> Mode {
@@ -1746,7 +2040,136 @@ fn gen_par(rng: &mut Rng) -> Case {
         5 => Mode::Sample { seed: 0, points: 0 },
         _ => gen_chain(rng, 4 * steps.len()),
     };
-    Case { steps, recover_after_restart, mode, handle_numbering: u8::from(rng.chance(1, 2)) }
+    Case { steps, recover_after_restart, mode, handle_numbering: u8::from(rng.chance(1, 2)), log_limit: None }
+}
+
+/// `Mode::Limits`: see there.
+fn run_limits(case: &Case, ctx: &Arc<RunCtx>, seed: u64, points: u32, out: &mut RunOut) {
+    // reference execution without a limit: the size of the log before and after every record
+    let mut t = Trial::new(ctx, case, 0);
+    t.limit = None;
+    let (v, syslog) = t.run(&[], true);
+    out.observations.append(&mut t.observations);
+    out.harness_error = t.harness_error.take();
+    t.cleanup();
+    out.inner_evals = 1;
+    ctx.lock().record_sys = false;
+    if let Err(v) = v {
+        out.violation = Some(v);
+        out.nontrivial = true;
+        let mut reduced = case.clone();
+        reduced.log_limit = None;
+        reduced.mode = Mode::Chain(Vec::new());
+        out.reduced = serde_json::to_value(&reduced).ok();
+        return;
+    }
+    if out.harness_error.is_some() {
+        return;
+    }
+    ctx.probe("log_limits_enumerated");
+    let steps = full_steps(case);
+    // incarnation that runs each step in an execution without a crash
+    let mut inc_at: Vec<usize> = Vec::with_capacity(steps.len());
+    let mut inc = 0usize;
+    for s in &steps {
+        inc_at.push(inc);
+        if *s == Step::Restart {
+            inc += 1;
+        }
+    }
+    let mut slots: Vec<u8> = Vec::new();
+    for s in &case.steps {
+        if let Step::Begin { t, .. } | Step::BeginWide { t, .. } = s {
+            if !slots.contains(t) {
+                slots.push(*t);
+            }
+        }
+    }
+    // what follows the program: 0 = the epilogue at once (it starts with a restart);
+    // 1 = every timeout passes on the live coordinator, then the epilogue;
+    // 2 = every transaction is aborted on the live coordinator, then the epilogue
+    let tails: [Vec<Step>; 3] =
+        [Vec::new(), vec![Step::Advance { ms: 6000 }, Step::Sweep, Step::Aborts], slots.iter().map(|t| Step::Abort { t: *t }).collect()];
+    let mut variants: Vec<(LogLimit, usize)> = Vec::new();
+    let mut cum = 0u64;
+    let mut k = 0usize;
+    for (at, ev) in &syslog {
+        if ev.kind != "write" || ev.len == 0 || !ev.path.ends_with("tx.wal") {
+            continue;
+        }
+        let len = ev.len as u64;
+        let inc_k = inc_at.get(*at).copied().unwrap_or(inc);
+        let mut j = 0usize;
+        // this record is the first one refused: no room left at all / one byte short
+        for max_bytes in [cum, cum + len - 1] {
+            for tail in 0..tails.len() {
+                // kept for ever, lifted at the next restart, or at the one after it
+                let lives = match (k + j) % 3 {
+                    0 => (inc_k + 1).min(254) as u8,
+                    1 => 255,
+                    _ => (inc_k + 2).min(254) as u8,
+                };
+                j += 1;
+                variants.push((LogLimit { max_bytes, lives }, tail));
+            }
+        }
+        cum += len;
+        k += 1;
+    }
+    let want = points as usize;
+    if want > 0 && variants.len() > want {
+        let mut r = Rng::new(seed);
+        let mut idx: Vec<usize> = (0..variants.len()).collect();
+        for j in 0..want {
+            let k = j + r.usize_below(idx.len() - j);
+            idx.swap(j, k);
+        }
+        let mut keep: Vec<usize> = idx[..want].to_vec();
+        keep.sort_unstable();
+        variants = keep.into_iter().map(|j| variants[j].clone()).collect();
+    }
+    let mut tag = 1;
+    for (limit, tail) in variants {
+        let mut t = Trial::new(ctx, case, tag);
+        tag += 1;
+        ctx.event(&format!("--- log limit {} bytes in the first {} incarnations, tail {tail}", limit.max_bytes, limit.lives));
+        if tail != 0 {
+            ctx.probe("limit_followed_by_live_tail");
+        }
+        t.limit = Some(limit.clone());
+        t.extra = tails[tail].clone();
+        let (v, _) = t.run(&[], false);
+        for o in t.observations.drain(..) {
+            if !out.observations.contains(&o) {
+                out.observations.push(o);
+            }
+        }
+        let he = t.harness_error.take();
+        t.cleanup();
+        out.inner_evals += 1;
+        if let Err(mut v) = v {
+            v.detail = format!(
+                "{} [log opened with max_size_bytes={} auto_rotate=false in the first {} incarnations; after the program: {}]",
+                v.detail,
+                limit.max_bytes,
+                limit.lives,
+                ["the epilogue", "advance 6000 ms, cleanup_timeouts, process_pending_aborts, then the epilogue", "abort of every transaction, then the epilogue"][tail]
+            );
+            out.violation = Some(v);
+            out.nontrivial = true;
+            let mut reduced = case.clone();
+            reduced.steps.extend_from_slice(&tails[tail]);
+            reduced.log_limit = Some(limit);
+            reduced.mode = Mode::Chain(Vec::new());
+            out.reduced = serde_json::to_value(&reduced).ok();
+            return;
+        }
+        if he.is_some() {
+            out.harness_error = he;
+            return;
+        }
+    }
+    out.nontrivial = syslog.len() >= 2;
 }
 
 fn sample_offsets(len: usize) -> Vec<usize> {
@@ -1786,6 +2209,7 @@ impl Scenario for C13 {
         match index % 8 {
             3 => gen_wide(rng, (index / 8) % 12 == 0),
             1 | 5 => gen_par(rng),
+            7 => gen_limited(rng, (index / 8) % 4 == 3),
             _ => gen_classic(rng),
         }
     }
@@ -1800,7 +2224,11 @@ impl Scenario for C13 {
         if case.handle_numbering == 1 {
             ctx.probe("participant_numbered_handles");
         }
+        if let Some(l) = &case.log_limit {
+            ctx.fp(&format!("limit:{}", l.lives));
+        }
         match &case.mode {
+            Mode::Limits { seed, points } => run_limits(case, ctx, *seed, *points, &mut out),
             Mode::Chain(specs) => {
                 let mut t = Trial::new(ctx, case, 0);
                 let (v, _) = t.run(specs, false);
@@ -2021,6 +2449,16 @@ impl Scenario for C13 {
             c.handle_numbering = 0;
             v.push(c);
         }
+        if let Some(l) = &case.log_limit {
+            let mut c = case.clone();
+            c.log_limit = None;
+            v.push(c);
+            if l.lives != 255 {
+                let mut c = case.clone();
+                c.log_limit = Some(LogLimit { max_bytes: l.max_bytes, lives: 255 });
+                v.push(c);
+            }
+        }
         for (i, s) in case.steps.iter().enumerate() {
             match s {
                 Step::Vote { t, s: sh, v: vv } if *vv == V::Resend || *vv == V::Flip => {
@@ -2113,14 +2551,25 @@ impl Scenario for C13 {
             "crash_inside_par_block",
             "lock_handle_value_reused_by_another_tx",
             "unreleased_lock_shares_handle_value_with_released_lock",
+            // round 3
+            "log_limits_enumerated",
+            "limit_followed_by_live_tail",
+            "decision_refused_before_any_record",
+            "commit_failed_between_committing_and_txcomplete",
+            "abort_failed_between_aborting_and_txcomplete",
+            "commit_ok_with_lock_release_records_refused",
+            "vote_dropped_on_refused_append",
+            "drive_failed_on_refused_append",
+            "restart_under_size_limit",
+            "size_limit_lifted_at_restart",
         ]
     }
     fn rule(&self) -> String {
-        "A case is a generated program followed by a fixed epilogue (restart; drive every recovered transaction to completion; restart; sweep after every timeout; a new transaction on the same keys; restart). Three shapes, chosen by run index: (5/8) the round-1 program: 1-4 transactions of 1-3 participants with overlapping keys; begin, votes yes/no/resent/flipped/late, commit, abort, clock advances, timeout sweeps, abort broadcasts, pending-decision completion, recover(), clean restarts; (1/8) the same with one transaction of 8 300 - 262 000 participants begun in the middle (TxBegin / AbortIntent records of 64 KiB - 1 MiB; every 12th of these has the 1 MiB record); (2/8) 1-3 transactions whose participants' votes and, now and then, commit and/or abort are issued by 2-4 scheduled threads (one block for all or one per transaction; participants prepare inside the threads or one after the other ahead of them), followed by decisions, clean restarts or a commit/abort race after a restart. In half of the cases the YES votes carry participant-numbered lock handles that start again from 1 in every incarnation. Enumerate mode (round-1 shape): every mutating syscall boundary of program+epilogue (un-synced log bytes kept, dropped, or cut at a pseudo-random length) and byte offsets inside every log write (all offsets of records up to 48 bytes, ~25 sampled ones of longer records) are each taken as a power-loss crash point, each followed by restart from the log, the property checks, the rest of the program and the epilogue (three more restarts). Sample mode (wide and thread shapes): a seeded subset (10-40) of the same crash points, and, for every thread block, the schedules with preemption bound 1 (each thread starts first; one switch at schedule point j, for every j; at most 64 per case) without a crash. Chain mode: 1-3 seeded crashes in one execution, the later ones shortly after a restart. inner_enumerated_points counts all these executions. Non-trivial: at least one crash fired (Chain) or the program issued >=2 mutating syscalls (Enumerate, Sample). Distinct: hash of (recover flag, mode, handle numbering, sequence of step kinds and crash sites).".into()
+        "A case is a generated program followed by a fixed epilogue (restart; drive every recovered transaction to completion; restart; sweep after every timeout; a new transaction on the same keys; restart). Four shapes, chosen by run index: (4/8) the round-1 program: 1-4 transactions of 1-3 participants with overlapping keys; begin, votes yes/no/resent/flipped/late, commit, abort, clock advances, timeout sweeps, abort broadcasts, pending-decision completion, recover(), clean restarts; (1/8) the same with one transaction of 8 300 - 262 000 participants begun in the middle (TxBegin / AbortIntent records of 64 KiB - 1 MiB; every 12th of these has the 1 MiB record); (2/8) 1-3 transactions whose participants' votes and, now and then, commit and/or abort are issued by 2-4 scheduled threads (one block for all or one per transaction; participants prepare inside the threads or one after the other ahead of them), followed by decisions, clean restarts or a commit/abort race after a restart; (1/8) the round-1 program on a log with a hard size limit without rotation (WalConfig max_size_bytes, auto_rotate=false): three of four of these in Limits mode, one of four with a drawn limit of 20 bytes up to about the size of the program's records, in force for the first 1 or 2 incarnations or always, together with 1-3 crashes (Chain mode). In half of the cases the YES votes carry participant-numbered lock handles that start again from 1 in every incarnation. Enumerate mode (round-1 shape): every mutating syscall boundary of program+epilogue (un-synced log bytes kept, dropped, or cut at a pseudo-random length) and byte offsets inside every log write (all offsets of records up to 48 bytes, ~25 sampled ones of longer records) are each taken as a power-loss crash point, each followed by restart from the log, the property checks, the rest of the program and the epilogue (three more restarts). Sample mode (wide and thread shapes): a seeded subset (10-40) of the same crash points, and, for every thread block, the schedules with preemption bound 1 (each thread starts first; one switch at schedule point j, for every j; at most 64 per case) without a crash. Limits mode: a reference execution without limit gives the log size before every record of program+epilogue; for every record, the limit is set so that this record is the first one refused, with no room left and with one byte less than it needs (shorter records still fit), each followed by (a) the epilogue at once, (b) advance 6 s + cleanup_timeouts + process_pending_aborts on the live coordinator and then the epilogue, (c) abort of every transaction on the live coordinator and then the epilogue; the limit stays for ever, or is lifted at the next restart, or at the one after it (rotating); no crash. Chain mode: 1-3 seeded crashes in one execution, the later ones shortly after a restart. inner_enumerated_points counts all these executions. Non-trivial: at least one crash fired (Chain) or the program issued >=2 mutating syscalls (Enumerate, Sample, Limits). Distinct: hash of (recover flag, mode, handle numbering, lives of the log limit, sequence of step kinds and crash sites).".into()
     }
     fn components(&self) -> Value {
         json!({
-            "real": ["tensor_chain::DistributedTxCoordinator (begin, handle_prepare, record_vote, commit, abort, cleanup_timeouts, process_pending_aborts, recover_from_wal, recover, get_pending_decisions, complete_commit, complete_abort, lock_manager)", "tensor_chain::TxWal (open, append, replay), TxRecoveryState", "LockManager / WaitForGraph", "std::fs / BufWriter", "tensor_chain::sync_compat locks (their acquisitions are the schedule points of the thread blocks)"],
+            "real": ["tensor_chain::DistributedTxCoordinator (begin, handle_prepare, record_vote, commit, abort, cleanup_timeouts, process_pending_aborts, recover_from_wal, recover, get_pending_decisions, complete_commit, complete_abort, lock_manager)", "tensor_chain::TxWal (open, open_with_config(WalConfig { max_size_bytes: <case>, auto_rotate: false, ..default }) in the incarnations the case names, append, replay), TxRecoveryState", "LockManager / WaitForGraph", "std::fs / BufWriter", "tensor_chain::sync_compat locks (their acquisitions are the schedule points of the thread blocks)"],
             "simulated": ["disk: libc write/fsync/open/ftruncate interposed, files on tmpfs with durable-watermark bookkeeping; crash at a chosen syscall/byte; power loss cuts the log to a length between fsynced and written", "clock (SystemTime/Instant) advanced by the step list", "network: SimTransport collects the abort broadcasts", "threads of a Par step: real OS threads run one at a time by the baton scheduler, switched only at tensor_chain lock acquisitions and between operations, the picks are part of the case"],
             "stub": ["participants: votes are scripted by the step list (a first YES takes its lock through the coordinator's real handle_prepare; with handle_numbering=1 the vote names that lock by the participant's own number, 1, 2, ... in every incarnation)"]
         })
@@ -2131,7 +2580,9 @@ impl Scenario for C13 {
             "a completion counts as logged when commit/abort returned Ok while the node was alive, or when the TxComplete record of the call cut by the crash lies wholly inside the surviving log (read back through TxWal::replay right after the reopen, cross-checked against an independent count of complete frames)".into(),
             "complete_commit/complete_abort and cleanup_timeouts write no log record: their outcomes are not 'logged completions'; what happens to such transactions after the next restart is reported as an observation only".into(),
             "the restarted coordinator lives in the same process: lock handles stay unique across restarts (the handle counter is a process global), and its LockManager is new (the log does not carry locks)".into(),
-            "log rotation (size limit 1 GB by default) is never reached".into(),
+            "log rotation is never exercised: the log has either the default configuration (1 GiB, never reached) or a hard size limit with auto_rotate=false, under which an append that does not fit is refused and the log keeps its contents".into(),
+            "a coordinator call that returned Err is un-acknowledged: the ledger assumes nothing about what it did and reads the log back at once; a completion counts as logged when its TxComplete record is in the log (the first one, should there be several). Nothing is claimed about the locks of a transaction whose completion was logged by a call that returned Err until the next restart. record_vote answers Ok(None) also when the vote's append was refused and the vote dropped; whether the vote was taken is read from the coordinator (get(tx).votes); a dropped vote is not a collected vote. 'can be driven to completion' is not claimed for a commit/abort that fails because the size-limited log refuses its records".into(),
+            "a reversal (timeout or abort after a logged commit, commit after a logged abort) by the incarnation that itself logged the completion is not judged at once (the text speaks of a restarted coordinator) but at the next completed restart from that log, whatever the restarted coordinator then does".into(),
             "'locks of completed transactions are released' after a restart is decided on recovery's report: the restarted coordinator's lock manager is new, so a lock that a completed transaction never gave back exists only as log records; it counts as released when the log holds a LockRelease record of that transaction for it or AllLocksReleased for the transaction, or when TxRecoveryState (what recover_from_wal acts on) lists it as orphaned for that transaction. A lock is identified by (transaction, handle), never by the handle value alone".into(),
             "in a thread block every participant's messages come from one thread (two different answers of one participant never race each other; they do follow each other, as in round 1); the ledger is updated in the order in which the coordinator's calls returned".into(),
         ]
